@@ -62,6 +62,7 @@ class Universe:
         self.uf = {}             # name -> z3 Function
         self.assumptions = []    # human-readable list for evidence
         self.class_names = set() # names usable as class constants (isinstance / observer arguments)
+        self.class_alias = {}    # sidecar class name -> real class name in the repository module
         self.opaque_attrs = {}   # class -> {attribute: kind string}   (observer attributes of opaque classes)
         self.recfuns = {}        # name -> {"params": [...], "base": src, "step": src}  (defined by unfolding)
 
@@ -125,6 +126,7 @@ class Universe:
         for c, d in getattr(mod, "OPAQUE_ATTRS", {}).items():
             self.opaque_attrs.setdefault(c, {}).update(d)
         self.recfuns.update(getattr(mod, "RECFUN", {}))
+        self.class_alias.update(getattr(mod, "CLASS_ALIAS", {}))
         if hasattr(mod, "native_globals"):
             self.__dict__.setdefault("native_globals", {}).update(mod.native_globals())
         for ax in getattr(mod, "AXIOMS", []):
